@@ -222,8 +222,62 @@ pub fn run_seed(rng: &mut Rng, out: &mut Out, n: usize) {
     ctor_probes(rng, out, core::cmp::max(20, n / 4));
 }
 
+/// batch Merkle proofs and digests (listed component types of C07): every proof `prove_batch`
+/// produces — all index sets of small trees, single leaves, sibling pairs, random sets of larger
+/// trees, with a byte hasher and with Rescue — decodes from its own encoding to an equal value with
+/// nothing left over and still verifies; digests round-trip.
+fn merkle_roundtrips(rng: &mut Rng, out: &mut Out, n: usize) {
+    use winter_crypto::{hashers::{Blake3_192, Blake3_256, Rp64_256}, BatchMerkleProof, Digest, Hasher, MerkleTree};
+    fn one<H: Hasher>(out: &mut Out, hname: &str, depth: u32, idx: &[usize], leaves: &[H::Digest]) {
+        let tree = MerkleTree::<H>::new(leaves.to_vec()).unwrap();
+        let Ok((lv, proof)) = tree.prove_batch(idx) else { return };
+        let root = *tree.root();
+        let idx = idx.to_vec();
+        let shown = idx.iter().map(|i| i.to_string()).collect::<Vec<_>>().join(",");
+        let lv2: Vec<H::Digest> = lv.iter().take(2).cloned().collect();
+        out.count(&format!("bmp:{hname}:{}", if idx.len() == 1 { "single-leaf" } else { "multi" }));
+        out.case(&format!("obj bmp_rt {hname} {depth} {shown}"), "ok-equal-verifies", move || {
+            let bytes = proof.to_bytes();
+            let mut r = SliceReader::new(&bytes);
+            match BatchMerkleProof::<H>::read_from(&mut r) {
+                Err(e) => format!("decode-error {}", err_str(&e)),
+                Ok(p2) => {
+                    if r.has_more_bytes() { return "bytes-left-over".into(); }
+                    if p2.to_bytes() != bytes { return "decoded-differs".into(); }
+                    match MerkleTree::<H>::verify_batch(&root, &idx, &lv, &p2) { Ok(()) => "ok-equal-verifies".into(), Err(_) => "decoded-does-not-verify".into() }
+                },
+            }
+        });
+        for d in lv2 {
+            out.case(&format!("obj digest_rt {hname} {}", hex(&d.as_bytes())), "ok", move || {
+                let b = d.to_bytes();
+                let mut r = SliceReader::new(&b);
+                match H::Digest::read_from(&mut r) { Ok(d2) if d2 == d && !r.has_more_bytes() => "ok".into(), Ok(_) => "differs-or-left-over".into(), Err(e) => format!("decode-error {}", err_str(&e)) }
+            });
+        }
+    }
+    fn leaves_of<H: Hasher>(rng: &mut Rng, n: usize) -> Vec<H::Digest> { (0..n).map(|_| H::hash(&rng.bytes(9))).collect() }
+    // every non-empty index subset of trees with 2 and 4 leaves, every single leaf and sibling pair up to 64 leaves
+    for depth in 1..=6u32 {
+        let nl = 1usize << depth;
+        let l3 = leaves_of::<Blake3_256<f64::BaseElement>>(rng, nl);
+        let lr = leaves_of::<Rp64_256>(rng, nl);
+        let l2 = leaves_of::<Blake3_192<f64::BaseElement>>(rng, nl);
+        let mut sets: Vec<Vec<usize>> = Vec::new();
+        if nl <= 4 { for m in 1..(1usize << nl) { sets.push((0..nl).filter(|i| m >> i & 1 == 1).collect()); } }
+        for i in 0..nl { sets.push(vec![i]); if i % 2 == 0 { sets.push(vec![i, i + 1]); sets.push(vec![i + 1, i]); } }
+        sets.push((0..nl).collect());
+        for _ in 0..n { let k = 1 + rng.below(nl.min(12) as u64) as usize; let mut s: Vec<usize> = (0..k).map(|_| rng.below(nl as u64) as usize).collect(); s.sort(); s.dedup(); if rng.chance(1, 3) { s.reverse(); } sets.push(s); }
+        for s in &sets {
+            one::<Blake3_256<f64::BaseElement>>(out, "b3", depth, s, &l3);
+            if s.len() <= 2 || rng.chance(1, 3) { one::<Rp64_256>(out, "rp64", depth, s, &lr); one::<Blake3_192<f64::BaseElement>>(out, "b192", depth, s, &l2); }
+        }
+    }
+}
+
 pub fn run(rng: &mut Rng, out: &mut Out, n: usize) {
     ctor_probes(rng, out, core::cmp::max(20, n / 4));
+    merkle_roundtrips(rng, out, core::cmp::max(4, n / 20));
     for it in 0..n {
         // ---------------- TraceInfo ----------------
         let ti = gen_ti(rng, if it % 3 == 0 { 62 } else { 31 });
